@@ -1,5 +1,5 @@
 #!/bin/sh
-# usage: seedkeep5.sh <Unn> <variant> <caught_by comma list|none> <needs text>   (round 6)
+# usage: seedkeep6.sh <Wnn> <variant> <caught_by comma list|none> <needs text>   (round 6)
 /verif/seedkeep.py "$1" "$2" "$3" "$4" >/dev/null
 /venv/bin/python - "$1" "$2" <<'P'
 import json, sys
